@@ -105,7 +105,9 @@ func runC10(c C10Case) string {
 		})
 	}
 	st.Eval(c.Changes >= 2 && nSym > 0, model.DigestBytes(fmt.Sprintf("c10%v", c.Catalog), c.Doc), classes...)
-	st.Sample(func() string { return fmt.Sprintf("%s catalog=%v history: %s\ndoc: %s", format, c.Catalog, c.Events, showDoc(c.Doc)) })
+	st.Sample(func() string {
+		return fmt.Sprintf("%s catalog=%v history: %s\ndoc: %s", format, c.Catalog, c.Events, showDoc(c.Doc))
+	})
 	got, maxIDs, err := c10Observe(c)
 	desc := func() string {
 		return fmt.Sprintf("\nformat=%s catalog=%+v\nhistory: %s\ndoc: %s", format, c.Catalog, c.Events, showDoc(c.Doc))
@@ -172,7 +174,7 @@ func c10Catalog(t *rapid.T) []SharedJ {
 	names := []string{"t1", "t2", "shared"}
 	for i := 0; i < n; i++ {
 		name := names[i]
-		versions := gen.Pick(t, [][]int{{1}, {2}, {1, 2}, {1, 3}, {2, 3}})
+		versions := gen.Pick(t, [][]int{{1}, {2}, {1, 2}, {1, 3}, {2, 3}, {9, 10}, {2, 10}, {1, 9, 10}, {99, 100}, {3, 20, 100}})
 		for _, v := range versions {
 			s := SharedJ{Name: name, Version: v, MaxID: -1}
 			k := gen.Range(t, 0, 5)
@@ -259,6 +261,16 @@ func c10Value(t *rapid.T, tab *refbin.SymTab, textOK bool, depth int) model.Valu
 	if depth == 0 && gen.IsSystemValue(v) {
 		v.Ann = append([]model.Sym{model.S("name")}, v.Ann...)
 	}
+	if depth == 0 && gen.Chance(t, 6) {
+		// a top-level struct shaped like a symbol table whose marker annotation
+		// is not the first one: user data, the context stays as it is
+		v = model.StructV(model.Field{Name: model.S("symbols"), Val: model.ListV(model.StrV("decoy1"), model.StrV("decoy2"))},
+			model.Field{Name: model.S("imports"), Val: model.SymV(model.S("$ion_symbol_table"))})
+		v.Ann = []model.Sym{model.S(gen.Pick(t, []string{"name", "version", "$ion", "symbols"})), model.S("$ion_symbol_table")}
+		if gen.Chance(t, 30) {
+			v.Ann = append(v.Ann, model.S("$ion_symbol_table"))
+		}
+	}
 	return v
 }
 
@@ -301,7 +313,7 @@ func c10History(t *rapid.T, undefinedIDs, allowError bool) C10Case {
 			var imps []refbin.Import
 			ni := gen.Pick(t, []int{0, 0, 1, 1, 2})
 			for j := 0; j < ni; j++ {
-				imp := refbin.Import{Name: gen.Pick(t, []string{"t1", "t2", "shared", "missing"}), Version: gen.Range(t, 1, 3), MaxID: -1}
+				imp := refbin.Import{Name: gen.Pick(t, []string{"t1", "t2", "shared", "missing"}), Version: gen.Pick(t, []int{1, 2, 3, 1, 2, 3, 5, 9, 10, 11, 100, 101}), MaxID: -1}
 				exact := cat.Exact(imp.Name, imp.Version)
 				switch gen.Intn(t, 6) {
 				case 0:
@@ -399,7 +411,7 @@ func TestC10(t *testing.T) {
 
 func init() {
 	Describe("C10",
-		"cases: a history of 2-12 events drawn from {version marker, replacing local symbol table (0-2 imports by name/version with max_id absent / 0 / exact / smaller / larger, names present in the catalog at the exact, a newer, an older or no version; 0-4 local symbols incl. duplicates and undefined slots; optional open content and field order), appending table (imports:$ion_symbol_table), user value whose symbols / field names / annotations are drawn from the table in force (by any of the IDs carrying the text, or an undefined slot, or $0), a symbol-table-shaped struct nested in a list} rendered in binary (reference encoder) or text (reference printer, 50% of symbols as $n), with a catalog of 0-3 shared tables in 1-2 versions (gaps allowed). Non-trivial: at least two context changes and at least one symbol read. Distinct by digest(bytes, catalog).",
+		"cases: a history of 2-12 events drawn from {version marker, replacing local symbol table (0-2 imports by name/version with max_id absent / 0 / exact / smaller / larger, names present in the catalog at the exact, a newer, an older or no version; 0-4 local symbols incl. duplicates and undefined slots; optional open content and field order), appending table (imports:$ion_symbol_table), user value whose symbols / field names / annotations are drawn from the table in force (by any of the IDs carrying the text, or an undefined slot, or $0), a symbol-table-shaped struct nested in a list, a top-level one whose $ion_symbol_table annotation is not the first} rendered in binary (reference encoder) or text (reference printer, 50% of symbols as $n), with a catalog of 0-3 shared tables in 1-2 versions (gaps allowed). Non-trivial: at least two context changes and at least one symbol read. Distinct by digest(bytes, catalog).",
 		"oracle: reference model: the reference decoder's resolution of the same bytes (cross-checked in the generator against a running ID-space model; a disagreement aborts with exit 2); ion-go must return the same values (symbol, field-name and annotation text; unknown text where the slot is undefined), the same number of user values (tables and markers never surface, a nested table-shaped struct does), Reader.SymbolTable().MaxID() equal to the model's after every value, and an error exactly when an import has no usable max_id and no exact catalog match",
 		"not generated (spec undecided / ion-go documents an error): duplicate imports or symbols fields, typed nulls in table fields (C06), max_id above 2^24, versions above 3",
 	)
